@@ -31,7 +31,7 @@ type vshCfg struct {
 	Sem       string `json:"sem"`                       // unified | planb | fallback
 	AlwaysDC  bool   `json:"always_dc,omitempty"`       // Configuration.AlwaysNegotiateDataChannels
 	MediaFP   bool   `json:"media_fp,omitempty"`        // SettingEngine.SetSDPMediaLevelFingerprints
-	Engine    string `json:"engine,omitempty"`          // "" (default codecs, RTX) | nortx | flexfec
+	Engine    string `json:"engine,omitempty"`          // "" (default codecs: RTX, no FEC) | nortx (neither) | flexfec (both) | feconly (FEC, no RTX)
 	PeerAudio bool   `json:"peer_audio_only,omitempty"` // P's MediaEngine has audio codecs only
 }
 
@@ -97,6 +97,27 @@ func vshNewPC(tb testing.TB, cfg vshCfg, peer bool) *PeerConnection {
 				PayloadType: 102,
 			}, RTPCodecTypeVideo)
 		}
+	case cfg.Engine == "feconly":
+		// video: VP8 + flexfec-03, no video/rtx (FEC enabled, RTX not)
+		o.media = func(m *MediaEngine) error {
+			if err := m.RegisterCodec(RTPCodecParameters{
+				RTPCodecCapability: RTPCodecCapability{MimeTypeOpus, 48000, 2, "minptime=10;useinbandfec=1", nil},
+				PayloadType:        111,
+			}, RTPCodecTypeAudio); err != nil {
+				return err
+			}
+			if err := m.RegisterCodec(RTPCodecParameters{
+				RTPCodecCapability: RTPCodecCapability{MimeTypeVP8, 90000, 0, "", nil},
+				PayloadType:        96,
+			}, RTPCodecTypeVideo); err != nil {
+				return err
+			}
+
+			return m.RegisterCodec(RTPCodecParameters{
+				RTPCodecCapability: RTPCodecCapability{MimeTypeFlexFEC03, 90000, 0, "repair-window=10000000", nil},
+				PayloadType:        118,
+			}, RTPCodecTypeVideo)
+		}
 	case cfg.Engine == "flexfec":
 		o.media = func(m *MediaEngine) error {
 			if err := m.RegisterDefaultCodecs(); err != nil {
@@ -130,7 +151,7 @@ type vshOp struct {
 	Side string `json:"side"` // X | P
 	// Op:
 	//  addk     AddTransceiverFromKind(Kind, Dir)
-	//  addtrack AddTrack(new track of Kind)
+	//  addtrack AddTrack(new track of Kind); N>1: the track carries a RID, N-1 x Sender.AddEncoding
 	//  addtft   AddTransceiverFromTrack(new track of Kind, Dir); N>1: simulcast, N-1 x Sender.AddEncoding
 	//  rmtrack  RemoveTrack(sender of transceiver Idx)
 	//  replace  Sender(Idx).ReplaceTrack(nil when N==0, another track when N==1)
@@ -157,6 +178,9 @@ func (o vshOp) String() string {
 		s += "(" + o.Kind + "," + o.Dir + ")"
 	case "addtrack":
 		s += "(" + o.Kind + ")"
+		if o.N > 1 {
+			s = strings.TrimSuffix(s, ")") + fmt.Sprintf(",enc=%d)", o.N)
+		}
 	case "addtft":
 		s += fmt.Sprintf("(%s,%s,enc=%d)", o.Kind, o.Dir, o.N)
 	case "rmtrack", "stop":
@@ -257,6 +281,7 @@ type vshDesc struct {
 	Trs       []vshTr // transceivers of the generating side right after the call
 	DCCreated bool    // the generating side has called CreateDataChannel before
 	RemoteApp bool    // the last remote description applied to the generating side has an application section
+	RemoteSet bool    // a remote description has been applied to the generating side
 	Scan      vScanDesc
 }
 
@@ -563,7 +588,7 @@ func (rp *vshReplayer) create(s *vshSideState, typ, role string) (*vshDesc, Sess
 	} else {
 		sd, err = s.pc.CreateAnswer(nil)
 	}
-	d := &vshDesc{Step: rp.step, Side: s.name, Type: typ, Role: role, Trs: s.snapshot(), DCCreated: s.dcCreated > 0, RemoteApp: vshHasApp(s.remoteText)}
+	d := &vshDesc{Step: rp.step, Side: s.name, Type: typ, Role: role, Trs: s.snapshot(), DCCreated: s.dcCreated > 0, RemoteApp: vshHasApp(s.remoteText), RemoteSet: s.remoteText != ""}
 	if err != nil {
 		d.Err = err.Error()
 	} else {
@@ -656,13 +681,33 @@ func (rp *vshReplayer) apply(op vshOp) string { //nolint:gocognit,cyclop
 
 		return done(err)
 	case "addtrack":
-		tr, err := s.newTrack(op.Kind, "")
+		rids := []string{""}
+		if op.N > 1 {
+			rids = []string{"q", "h", "f"}[:op.N]
+		}
+		tr, err := s.newTrack(op.Kind, rids[0])
 		if err != nil {
 			vkit.Fatalf(rp.tb, "track: %v", err)
 		}
-		_, err = pc.AddTrack(tr)
+		snd, err := pc.AddTrack(tr)
+		if err != nil {
+			return done(err)
+		}
+		for _, rid := range rids[1:] {
+			mime := MimeTypeOpus
+			if op.Kind == "video" {
+				mime = MimeTypeVP8
+			}
+			tr2, err2 := NewTrackLocalStaticSample(RTPCodecCapability{MimeType: mime}, tr.ID(), tr.StreamID(), WithRTPStreamID(rid))
+			if err2 != nil {
+				vkit.Fatalf(rp.tb, "track: %v", err2)
+			}
+			if err2 = snd.AddEncoding(tr2); err2 != nil {
+				return done(err2)
+			}
+		}
 
-		return done(err)
+		return done(nil)
 	case "addtft":
 		rids := []string{""}
 		if op.N > 1 {
